@@ -176,8 +176,7 @@ impl TransformerContext {
 pub trait EventGen {
 //@item src/transform.rs :: trait EventGen :: fn generate_events
 //@ ensures
-//@ - scope_frame(*old(context), *final(context))    @@C15.scope.restored @@C18.vars.scope
-//@ - final(context).config.var_limit == old(context).config.var_limit || true
+//@ - scope_frame(*old(context), *final(context))    @@C15.scope.restored @@C18.vars.scope @@C10.failed_tag.no_trace
 //@end
 }
 
